@@ -772,6 +772,16 @@ func (m *Machine) binop(op token.Token, x, y Value, t types.Type, xt types.Type,
 			c = cNot(c)
 		}
 		return VBool{c}
+	case StructV:
+		b := y.(StructV)
+		c := m.cbool(true)
+		for i := range a.fields {
+			c = cAnd(c, m.binop(token.EQL, a.fields[i], b.fields[i], types.Typ[types.Bool], nil, pos).(VBool).c)
+		}
+		if op == token.NEQ {
+			c = cNot(c)
+		}
+		return VBool{c}
 	case ArrayV:
 		b := y.(ArrayV)
 		c := m.cbool(true)
